@@ -138,6 +138,27 @@ func Pool() []Block {
 				N("GET").WithParen().WithKids(N("Path").WithBody("{\n  \"b\": 2\n}"), N("200", "any")),
 				N("DELETE").WithParen().WithKids(N("204", "empty")))
 		})},
+		// a path whose first segment is a parameter; a Path body reached through a chain of type
+		// references; Path properties whose schema is a user type (integer, float, string)
+		{Name: "H_rootp", Kind: "http", Defines: []string{"path:/{tenant}"}, Nodes: one(func() *Node {
+			return N("URL", "/{tenant}/users").WithParen().WithKids(N("GET").WithKids(N("200", "any")))
+		})},
+		{Name: "T_pk2", Kind: "type", Defines: []string{"@pk2"}, Nodes: one(func() *Node {
+			return N("TYPE", "@pk2").WithBody("{\n  \"kid\": 1\n}")
+		})},
+		{Name: "T_pk", Kind: "type", Defines: []string{"@pk"}, Needs: []string{"@pk2"}, Nodes: one(func() *Node {
+			return N("TYPE", "@pk").WithBody("@pk2")
+		})},
+		{Name: "H_alias", Kind: "http", Defines: []string{"path:/al"}, Needs: []string{"@pk"}, Nodes: one(func() *Node {
+			return N("GET", "/al/{kid}").WithKids(N("Path").WithBody("@pk"), N("200", "any"))
+		})},
+		{Name: "T_int", Kind: "type", Defines: []string{"@int"}, Nodes: one(func() *Node { return N("TYPE", "@int").WithBody("12 // {min: 1}") })},
+		{Name: "T_flt", Kind: "type", Defines: []string{"@flt"}, Nodes: one(func() *Node { return N("TYPE", "@flt").WithBody("1.5") })},
+		{Name: "H_pref", Kind: "http", Defines: []string{"path:/pref"}, Needs: []string{"@int", "@flt", "@c"}, Nodes: one(func() *Node {
+			return N("GET", "/pref/{i}/{f}/{s}").WithKids(
+				N("Path").WithBody("{\n  \"i\": @int,\n  \"f\": 2.5, // {type: \"@flt\"}\n  \"s\": @c\n}"),
+				N("200", "any"))
+		})},
 		{Name: "H_tag", Kind: "http", Defines: []string{"path:/tagged"}, Needs: []string{"tag:@g"}, Nodes: one(func() *Node {
 			return N("DELETE", "/tagged").WithKids(N("Tags", "@g"), N("204", "empty"))
 		})},
